@@ -90,4 +90,16 @@ PROPS = {
   ],
   "assumptions": ["ParentsFirst scan", "clean relative paths (non-empty components without '/', none '.' or '..')", "plain byte counts or exact KB multiples for --min-size/--max-size (parse_size's f64 arithmetic is outside the model)"],
  },
+ "C10": {
+  "seed": 10,
+  "streams": [{"kind": "py", "name": "faults", "module": "fault_stream", "kwargs": {"focus": "C10"}},
+              {"kind": "py", "name": "engine-c10", "module": "engine_stream", "kwargs": {"focus": "C10", "ncases": 60}}],
+  "trusted_base": [
+    "hand-written Lean model of the engine under fault plans (a faulted task fails and leaves an arbitrary node at its own path; every other task runs unchanged), tied to the real binary by strace fault injection (inject=<syscall>:error=<errno>:when=<k>) at system-call granularity",
+    "tools/extract_consts.py: main.rs consults the error list and the verification-failure counter for the exit status (regenerated each run)",
+    "strace's injection makes the k-th invocation of the chosen call fail with the chosen errno (kernel not reached)",
+  ],
+  "assumptions": ["faults are injected at system-call granularity only", "silent corruption of written bytes is not injected (would need an LD_PRELOAD shim): the verifying modes are covered by the exit-status theorem and constants only",
+                  "faults in read-only calls during planning are judged by the oracle only (the fault-plan model speaks about task execution)"],
+ },
 }
